@@ -11,6 +11,7 @@ import (
 	"go/token"
 	"go/types"
 	"os"
+	"reflect"
 	"regexp/syntax"
 	"strings"
 
@@ -229,12 +230,12 @@ func ruleRawSeq(c *Ctx, r *Rep) {
 			if _, full := lf["FullBytes"]; full {
 				continue // the bytes are emitted as they are
 			}
-			if !ok1 || !ok2 || !ok3 {
-				r.Undecided("shape:"+key, c.Pos(ci.Pos()), "class, tag or constructed bit of the literal is not a constant")
+			if ok1 && class != 0 {
+				r.Ok(key, c.Pos(ci.Pos()), "universal tags only", sprintf("class %d", class)) // whatever the tag: DER prescribes no form
 				continue
 			}
-			if class != 0 {
-				r.Ok(key, c.Pos(ci.Pos()), "universal tags only", sprintf("class %d", class))
+			if !ok1 || !ok2 || !ok3 {
+				r.Undecided("shape:"+key, c.Pos(ci.Pos()), "class, tag or constructed bit of the literal is not a constant")
 				continue
 			}
 			switch {
@@ -986,6 +987,74 @@ func rulePadCopy(c *Ctx, r *Rep) {
 				}
 			}
 			r.Check(okOff, sprintf("offset|%s#%d", c.FuncKey(fn), n), c.Pos(ci.Pos()), "len(buffer) - len(source)", found)
+			if !okOff {
+				continue
+			}
+			// the offset is not negative: on the way to the copy a test has established len(source) <= len(buffer)
+			// (a loop that goes on while the source is longer, or a rejection), or the buffer is made at least as long
+			fits, how := false, "no test on the way relates the two lengths"
+			if mk, ok := dst.X.(*ssa.MakeSlice); ok {
+				if x, k, ok := lenPlus(mk.Len); ok && k >= 0 && same(x, src) {
+					fits, how = true, "the buffer is made with the source's length"
+				}
+			}
+			for _, g := range guardsOf(ci.Block()) {
+				bin, ok := g.Cond.(*ssa.BinOp)
+				if !ok {
+					continue
+				}
+				lx, isLx := lenOperand(bin.X)
+				ly, isLy := lenOperand(bin.Y)
+				if !isLx || !isLy {
+					continue
+				}
+				op := bin.Op
+				if !g.Truth {
+					op = negateCmp(op)
+				}
+				// a field read again after the test counts as the same value when nothing stores to the field
+				// behind the test
+				same2 := func(a, b ssa.Value) bool {
+					if same(a, b) {
+						return true
+					}
+					if !sameFieldLoad(a, b) {
+						return false
+					}
+					idx := 0
+					if !g.Truth {
+						idx = 1
+					}
+					succ := g.If.Block().Succs[idx]
+					for _, blk := range fn.Blocks {
+						if !succ.Dominates(blk) {
+							continue
+						}
+						for _, ins := range blk.Instrs {
+							if st, ok := ins.(*ssa.Store); ok {
+								if ld, ok := st.Addr.(*ssa.FieldAddr); ok {
+									if fa, ok := a.(*ssa.UnOp).X.(*ssa.FieldAddr); ok && fa.X == ld.X && fa.Field == ld.Field {
+										return false
+									}
+								}
+							}
+						}
+					}
+					return true
+				}
+				// normalise to  len(source) OP len(buffer)
+				switch {
+				case same2(lx, src) && same2(ly, dst.X):
+				case same2(ly, src) && same2(lx, dst.X):
+					op = flipCmp(op)
+				default:
+					continue
+				}
+				if op == token.LEQ || op == token.LSS || op == token.EQL {
+					fits, how = true, "len(source) "+op.String()+" len(buffer) holds on the way"
+				}
+			}
+			r.Check(fits, sprintf("fits|%s#%d", c.FuncKey(fn), n), c.Pos(ci.Pos()), "len(source) <= len(buffer) is established before the padded copy", how)
 		}
 	}
 }
@@ -2275,4 +2344,161 @@ func fromLibraryBytes(c *Ctx, v ssa.Value) bool {
 		return ok && b.Kind() == types.Byte
 	}
 	return false
+}
+
+func init() {
+	register(&Rule{Name: "LINT-OPTEMPTY", Floor: 1, Run: ruleOptEmpty, Fixture: "fixture.optionalGetsEmptyList",
+		Doc: "a list inside an ASN.1 structure marked optional stays nil when nothing is configured: encoding/asn1 leaves an optional value out only when it equals its zero value, and a made, empty list does not"})
+}
+
+// ruleOptEmpty: for every list-typed field that an `asn1:"optional"` tag (its own, without omitempty, or that of a
+// struct-typed field holding it) makes presence-sensitive, no store puts an unconditionally made list there.
+func ruleOptEmpty(c *Ctx, r *Rep) {
+	type fkey struct {
+		owner *types.Named
+		idx   int
+	}
+	sensitive := map[fkey]string{}
+	var markStruct func(nt *types.Named, why string, depth int)
+	markStruct = func(nt *types.Named, why string, depth int) {
+		st, ok := nt.Underlying().(*types.Struct)
+		if !ok || depth > 4 {
+			return
+		}
+		for i := 0; i < st.NumFields(); i++ {
+			ft := st.Field(i).Type()
+			if _, isSlice := ft.Underlying().(*types.Slice); isSlice {
+				tag := reflect.StructTag(st.Tag(i)).Get("asn1")
+				if !strings.Contains(tag, "omitempty") {
+					if _, have := sensitive[fkey{nt, i}]; !have {
+						sensitive[fkey{nt, i}] = why
+					}
+				}
+			}
+			if inner, ok := ft.(*types.Named); ok && c.IsModObj(inner.Obj()) {
+				markStruct(inner, why, depth+1)
+			}
+		}
+	}
+	for _, p := range c.Pkgs {
+		sc := p.Types.Scope()
+		for _, name := range sc.Names() {
+			tn, ok := sc.Lookup(name).(*types.TypeName)
+			if !ok {
+				continue
+			}
+			nt, ok := tn.Type().(*types.Named)
+			if !ok {
+				continue
+			}
+			st, ok := nt.Underlying().(*types.Struct)
+			if !ok {
+				continue
+			}
+			for i := 0; i < st.NumFields(); i++ {
+				tag := reflect.StructTag(st.Tag(i)).Get("asn1")
+				if !strings.Contains(tag, "optional") {
+					continue
+				}
+				why := nt.Obj().Name() + "." + st.Field(i).Name() + " is optional"
+				ft := st.Field(i).Type()
+				if _, isSlice := ft.Underlying().(*types.Slice); isSlice && !strings.Contains(tag, "omitempty") {
+					sensitive[fkey{nt, i}] = why
+				}
+				if inner, ok := ft.(*types.Named); ok && c.IsModObj(inner.Obj()) {
+					markStruct(inner, why, 0)
+				}
+			}
+		}
+	}
+	// a value that is a freshly made list on some way in, with nothing on that way saying the source is not empty
+	var madeUnguarded func(v ssa.Value, depth int) (bool, string)
+	madeUnguarded = func(v ssa.Value, depth int) (bool, string) {
+		if depth > 6 {
+			return false, ""
+		}
+		guarded := func(b *ssa.BasicBlock) bool {
+			for _, g := range guardsOf(b) {
+				if _, empty, ok := emptyTestOf(g.Cond, g.Truth); ok && !empty {
+					return true
+				}
+				if _, isNil, ok := nilTestOf(g.Cond, g.Truth); ok && !isNil {
+					return true
+				}
+			}
+			return false
+		}
+		switch x := v.(type) {
+		case *ssa.MakeSlice:
+			if k, ok := x.Len.(*ssa.Const); ok && k.Value != nil && k.Int64() > 0 {
+				return false, ""
+			}
+			if !guarded(x.Block()) {
+				return true, "make(" + x.Type().String() + ", …)"
+			}
+		case *ssa.Slice:
+			if al, ok := x.X.(*ssa.Alloc); ok {
+				if pt, ok := al.Type().Underlying().(*types.Pointer); ok {
+					if arr, ok := pt.Elem().Underlying().(*types.Array); ok && arr.Len() == 0 && !guarded(x.Block()) {
+						return true, "an empty list literal"
+					}
+				}
+			}
+			if _, ok := x.X.Type().Underlying().(*types.Slice); ok {
+				return madeUnguarded(x.X, depth+1)
+			}
+		case *ssa.Phi:
+			for _, e := range x.Edges {
+				if bad, what := madeUnguarded(e, depth+1); bad {
+					return true, what
+				}
+			}
+		case *ssa.Call:
+			if b, ok := x.Call.Value.(*ssa.Builtin); ok && b.Name() == "append" {
+				return madeUnguarded(x.Call.Args[0], depth+1)
+			}
+			// a loop-free helper that returns the list
+			if f := x.Call.StaticCallee(); f != nil && f.Object() != nil && c.IsModObj(f.Object()) && f.Signature.Results().Len() == 1 {
+				for _, ret := range returnsOf(f) {
+					if res := retResults(ret); len(res) == 1 {
+						if bad, what := madeUnguarded(res[0], depth+1); bad {
+							return true, what + " returned by " + f.Name()
+						}
+					}
+				}
+			}
+		}
+		return false, ""
+	}
+	n := map[string]int{}
+	for _, fn := range c.Funcs {
+		for _, b := range fn.Blocks {
+			for _, ins := range b.Instrs {
+				st, ok := ins.(*ssa.Store)
+				if !ok {
+					continue
+				}
+				fa, ok := st.Addr.(*ssa.FieldAddr)
+				if !ok {
+					continue
+				}
+				pt, ok := fa.X.Type().Underlying().(*types.Pointer)
+				if !ok {
+					continue
+				}
+				nt, ok := pt.Elem().(*types.Named)
+				if !ok {
+					continue
+				}
+				why, ok := sensitive[fkey{nt, fa.Field}]
+				if !ok {
+					continue
+				}
+				key := nt.Obj().Name() + "." + fieldOfAddr(fa).Name() + "|" + c.FuncKey(fn)
+				n[key]++
+				bad, what := madeUnguarded(st.Val, 0)
+				r.Check(!bad, sprintf("stays-absent|%s#%d", key, n[key]), c.Pos(st.Pos()), "the list stored is nil when nothing is configured ("+why+")", what)
+			}
+		}
+	}
 }
